@@ -92,4 +92,12 @@ CLAIMS["C15"] = {
     "design_ref": "DESIGN.md §3 C15",
 }
 
+CLAIMS["C14"] = {
+    "technique": "rapid-generated arrival plans against DelayFilter (in-package sink, panic trap) and a MinDelay/MaxJitter router (public API); lower-bound timing, order, exactly-once and liveness oracle",
+    "engine": "rapid-models",
+    "text": "Generated-input search on the real clock: delays {0,1us,50us,1ms,5ms,20ms}, 1..4 concurrent senders with bursts and gaps around the delay value through DelayFilter.Run (started by the harness with a recover trap), and MinDelay {0,1ms,10ms} x MaxJitter {0,2ms} routers with 1..3 sending sockets end to end. Oracle: forwarded no sooner than the delay after hand-in (monotonic stamps; noise can only make it more true), each chunk exactly once, unmodified, per-sender order, the loop never panics, everything forwarded within delay + 3 s. Exploration of the schedules the runtime produces; the yield-instrumented variant is listed in DESIGN.md as not yet built.",
+    "note": "Real clock: a tree that is early by less than the timer resolution could be missed; a slow machine cannot cause an alarm (lower bound and a 3 s liveness margin backed by a goroutine dump).",
+    "design_ref": "DESIGN.md §3 C14",
+}
+
 PENDING_REASON = "check not built yet in this revision of /verif (planned, see DESIGN.md §3); nothing is claimed for it"
